@@ -1,6 +1,7 @@
 """C05 - merging is local."""
 from ..mutate import Mutant, in_func
 from . import mergerules as mr
+from . import unitrules
 from . import mergetrace as mt
 from . import pathrules as pr
 
@@ -11,6 +12,7 @@ DECIDED = [
     'R1c: each pruning predicate compares the entry it decides with the node found by one lookup of that entry\'s own path in the opposite tree (no cached / re-descended counterpart).',
     'R1: over every on_merge_impl / on_premerge_impl in the package, the absolute path threaded through the recursion is used for lookups only on the merge root; lookups inside the nodes being merged use paths relative to them (path-base typing); removed-set and new-path walk share one base.',
     'R2: the recursion passes path + [key] (not path, not [key]) and the loop key to the child merge.',
+    'R3: every node method that hands its own (path, operand) pair on to the next layer (super(), a sub-build, the *_impl of the same step) hands it on in the same order.',
 ]
 UNDECIDED = ['sibling independence and wrapping invariance as data (a relational statement over pairs of runs).']
 
@@ -22,11 +24,13 @@ def check(repo, run, tier):
     g(mt.counterpart_lookup, repo, run, 'C05.R1c')
     g(pr.no_unpacked_list_paths, repo, run, 'C05.R1d')
     g(mr.key_loop_paths, repo, run, 'C05.R2')
+    g(unitrules.delegation_argument_order, repo, run, 'C05.R3')
     g.done()
 
 
 def mutants(repo):
     return [
+        Mutant('path-and-operand-swapped', lambda r: in_func(r, 'IncludeNode.ayns.on_preprocess_impl', "on_preprocess(path, builder)", "on_preprocess(builder, path)"), ['C05.R3']),
         Mutant('F5-reverted', lambda r: in_func(r, 'ComposedNode.ayns.on_merge_impl', "get_first_not_missing_node(path[_prefix_len:])", "get_first_not_missing_node(path)"), ['C05.R1']),
         Mutant('extend-looks-up-relative', lambda r: in_func(r, 'ExtendNode.ayns.on_premerge_impl', "node = into.ayns.get_node(path)", "node = into.ayns.get_node(path[len(path):])"), ['C05.R1']),
         Mutant('recursion-drops-prefix', lambda r: in_func(r, 'ComposedNode.ayns.on_merge_impl', "possibly_new_child = child.ayns.on_merge(path + [key], value)", "possibly_new_child = child.ayns.on_merge(NodePath([key]), value)"), ['C05.R2']),
